@@ -1,6 +1,7 @@
 import Slu.Model.Gssvx
 import Slu.Model.Refine
 import SluProofs.Lemmas.Gssvx
+import SluProofs.Lemmas.RefineResid
 import SluProofs.Props.C11
 /-
 C05 — The expert driver solves op(A) X = B and mutates A, B only as documented.
@@ -113,6 +114,30 @@ theorem gssvx_B_out (d : Bool) (o : Opts) (M : Mach R) (n nrhs ldb ldx : Nat) (e
       exact scaleMat_cell n nrhs ldb B _ i j hi hb hj hB
     · intro hn hr; rw [hout]; simp [scaleB, hn, hr]
     · intro hn hc; rw [hout]; simp [scaleB, hn, hc]
+
+/-- **C05 (X outside the solution block).** In any arithmetic: X keeps its size, the rows beyond n
+of every column (ldx > n) and every column beyond nrhs are never written, and X is not touched at
+all when nothing is solved (singular factorization or nrhs = 0). -/
+theorem gssvx_X_padding (d : Bool) (o : Opts) (M : Mach R) (n nrhs ldb ldx : Nat) (es : List (Entry K))
+    (r0 c0 : Nat → R) (B X : Array K) (facOk : Bool) (inner : Trans → Array K → Array K) :
+    let out := gssvx d o M n nrhs ldb ldx es r0 c0 B X facOk inner
+    out.x.size = X.size ∧
+    (∀ k, ¬ (k % ldx < n ∧ k / ldx < nrhs) → out.x[k]? = X[k]?) ∧
+    ((facOk = false ∨ nrhs = 0) → out.x = X) := by
+  intro out
+  by_cases hq : (!facOk ∨ nrhs = 0)
+  · have hout : out.x = X := by simp only [out, gssvx, hq, if_true]
+    exact ⟨by rw [hout], fun _ _ => by rw [hout], fun _ => hout⟩
+  · refine ⟨?_, ?_, ?_⟩
+    · simp only [out, gssvx, hq, if_false, unscaleX]
+      split <;> split <;> simp [scaleMat_size, setCols_size, copyMat_size]
+    · intro k hk
+      simp only [out, gssvx, hq, if_false, unscaleX]
+      split <;> split <;>
+        first
+        | rw [scaleMat_outside _ _ _ _ _ _ hk, setCols_outside _ _ _ _ _ _ hk, copyMat_outside _ _ _ _ _ _ _ hk]
+        | rw [setCols_outside _ _ _ _ _ _ hk, copyMat_outside _ _ _ _ _ _ _ hk]
+    · intro h; exact absurd (by rcases h with h | h <;> simp [h]) hq
 
 /-- which array scales B, spelled out over storage and Trans (the SLU_NR flip): column storage uses
 R for NOTRANS and C for TRANS/CONJ, row storage uses C for NOTRANS and R for TRANS/CONJ -/
@@ -357,6 +382,29 @@ theorem refine_noop_exact {K : Type} [Inhabited K] (Ar : Arith K Rat) (tr : Tran
       · rfl
   exact ⟨hloop, hloop _ _ _⟩
 
+open Slu.Refine in
+/-- **C05 (refinement leaves a correct X unchanged, exact arithmetic).** For the bit-mirror model of
+`[sdcz]gsrfs` run in exact arithmetic (`arithQ` on `Rat`, `arithQC` on `Cx Rat`: `ArithLaws`), every
+compressed-column matrix and every Trans: if `x` solves `op(A) x = b` then the refinement loop
+returns `x` itself — the residual formed by `sp_gemv` is exactly zero (`resid_exact`), so whatever
+the stopping rule does, only zero corrections are added. -/
+theorem refine_noop_of_solution {K : Type} [CommRing K] [Inhabited K] [HasConj K] [Mag K Rat] [ScalarLaws K]
+    (Ar : Arith K Rat) (laws : ArithLaws Ar) (tr : Trans) (A : CSC K) (safmin eps : Rat)
+    (solve : Array K → Array K) (b x : Array K)
+    (hsol : ∀ i < b.size, opMul (opOfTrans tr) (cscEntries A) (fun k => x.getD k 0) i = b.getD i 0)
+    (hlin : ∀ w : Array K, (∀ i, w.getD i 0 = 0) → ∀ i, (solve w).getD i 0 = 0) :
+    (refineCol Ar tr A safmin eps solve b x).1 = x := by
+  refine (refine_noop_exact Ar tr A safmin eps solve b x ?_ ?_ ?_).2
+  · intro i
+    rw [laws.kzero]
+    obtain ⟨hs, hv⟩ := resid_exact Ar laws tr A x b
+    by_cases hi : i < b.size
+    · rw [hv i hi, hsol i hi, sub_self]
+    · have : ¬ i < (resid Ar tr A x b).size := by rw [hs]; exact hi
+      simp [Array.getD_eq_getD_getElem?, Array.getElem?_eq_none (Nat.le_of_not_lt this)]
+  · rw [laws.kzero]; exact hlin
+  · intro v; rw [laws.add, laws.kzero, add_zero]
+
 /-! ### the hypotheses are satisfiable; the clauses on concrete data -/
 
 section examples
@@ -403,6 +451,8 @@ example : scaleB true .R 2 1 3 #[(8 : Rat), 8, 5] (fun i => if i = 0 then 1 / 20
   decide +kernel
 example : scaleB false .R 2 1 3 #[(8 : Rat), 8, 5] (fun i => if i = 0 then 1 / 2000 else 1 / 4) (fun _ => 7) = #[8, 8, 5] := by
   decide +kernel
+example : ArithLaws Slu.Refine.arithQ := arithQ_laws
+example : ArithLaws Slu.Refine.arithQC := arithQC_laws
 example : (0 : Rat) < exM.sml ∧ exM.sml ≤ exM.big := by decide +kernel
 example : InRange 2 exEs := by
   intro e he
